@@ -47,15 +47,21 @@ def oracle(w):
             return {"clause": "nothing-before-connect", "signature": "write-without-connection", "message": "frames without connection"}
         return None
     T = opened[0]
-    if any(c["status"] == "pending" for c in w.calls) or w.loop.has_ready():
-        # safety only while things are still moving
-        for f, c in pairs:
-            if not f["t"] < c["t"] + c["life"]:
-                return {"clause": "expired-never-transmitted", "signature": "expired-transmitted",
-                        "message": f"call #{c['idx']} (expiry {c['t'] + c['life']}) transmitted at {f['t']}"}
+    for f, c in pairs:
+        if not f["t"] < c["t"] + c["life"]:
+            return {"clause": "expired-never-transmitted", "signature": "expired-transmitted",
+                    "message": f"call #{c['idx']} (expiry {c['t'] + c['life']}) transmitted at {f['t']}"}
+    if any(c["status"] == "pending" for c in w.calls) or w.loop.has_ready() or any(t.paused for t in w.net.live()):
+        # safety only while things are still moving / stalled
         return None
     # calls made before the connection opened and still unexpired at T must appear, in order, once
     expect = [c["idx"] for c in held if c["t"] <= T and T < c["t"] + c["life"]]
+    if w.resumed_at is not None and expect:
+        # the stream opened stalled: the first held message went into the send buffer at T, the writer
+        # waited until the stall ended at R, and the others are judged against the clock at R
+        R = w.resumed_at
+        by_idx = {c["idx"]: c for c in w.calls}
+        expect = expect[:1] + [i for i in expect[1:] if R < by_idx[i]["t"] + by_idx[i]["life"]]
     # (held was computed at the time of the last call; entries expiring between the last call and T drop out)
     got = [c["idx"] for f, c in pairs if c["t"] <= T]
     if got != expect:
@@ -71,6 +77,8 @@ class Scenario(sc.SockWorld):
         self.max_send = params.get("max_send", 12)
         self.nadv = 0
         self.accepted_conn = False
+        self.stalled = False
+        self.resumed_at = None
 
     def kind(self, a):
         return a[0] if a[0] in ("run", "tick") else "env"
@@ -91,6 +99,12 @@ class Scenario(sc.SockWorld):
         acts = []
         if self.loop.has_ready():
             return [("run",)]
+        if self.stalled:
+            # final phase with back-pressure: the clock may pass pending expiries before the stall ends
+            acts = [("resume",)]
+            if self.nadv < self.p.get("max_adv", 3) + 1:
+                acts += [("adv", t) for t in self.corners()]
+            return acts
         if self.accepted_conn:
             return []
         if len(self.calls) < self.max_send:
@@ -105,6 +119,8 @@ class Scenario(sc.SockWorld):
                 acts.append(("adv", t))
         if self.net.pending:
             acts.append(("accept",))
+            if self.p.get("stall"):
+                acts.append(("accept-stalled",))
         return acts
 
     def do(self, a):
@@ -118,6 +134,15 @@ class Scenario(sc.SockWorld):
         elif op == "accept":
             self.accepted_conn = True
             self.net.resolve(True)
+        elif op == "accept-stalled":
+            self.accepted_conn = True
+            self.stalled = True
+            self.net.pause_next = True
+            self.net.resolve(True)
+        elif op == "resume":
+            self.stalled = False
+            self.resumed_at = L.time()
+            self.net.live()[-1].resume()
         elif op == "send":
             self.submit(self.fam(len(self.calls)), a[1])
         else:
@@ -130,7 +155,8 @@ class Scenario(sc.SockWorld):
         return None
 
     def fp_extra(self):
-        return super().fp_extra() + (self.nadv, self.accepted_conn)
+        return super().fp_extra() + (self.nadv, self.accepted_conn, self.stalled, self.net.pause_next,
+                                     None if self.resumed_at is None else round(self.resumed_at - self.loop.time(), 6))
 
 
 def not_open_cases(chk):
@@ -178,23 +204,26 @@ def run(tier, seed, part=None):
     chk = runner.Check("C16", tier, seed, "model_checking")
     chk.trusted_base = ["CPython 3.12 asyncio unmodified", "pvmc.vloop.VLoop", "pvmc.simnet", "pvmc.ref.framing"]
     chk.assumptions = ["the connection stays down (first connect attempt unanswered) until the final accept",
+                       "stall plans: the connection opens with back-pressure on (writer.drain() suspends) and is released once, after up to two further clock corners",
                        "lifetimes from {1 s, 30 s}; clock advanced only to timed-automaton corners of pending expiries (e-eps, e, e+eps) and +0.5 s"]
     # 'pattern': per send index, which lifetimes may be chosen (B = both 1 s and 30 s, I = 30 s, C = 1 s)
     if tier == "quick":
         plans = [({"max_send": 12, "max_adv": 1, "pattern": "BBIIIIIIBBBI"}, 13, 0),
-                 ({"max_send": 5, "max_adv": 2, "pattern": "BBBBB"}, 8, 0)]
+                 ({"max_send": 5, "max_adv": 2, "pattern": "BBBBB"}, 8, 0),
+                 ({"max_send": 4, "max_adv": 1, "pattern": "BBBB", "stall": True}, 8, 0)]
         cap = 45
     else:
         plans = [({"max_send": 12, "max_adv": 1, "pattern": "B" * 12}, 14, 0),
                  ({"max_send": 12, "max_adv": 3, "pattern": "BBIIIIIIBBBI"}, 16, 0),
-                 ({"max_send": 7, "max_adv": 4, "pattern": "B" * 7}, 12, 0)]
+                 ({"max_send": 7, "max_adv": 4, "pattern": "B" * 7}, 12, 0),
+                 ({"max_send": 6, "max_adv": 2, "pattern": "B" * 6, "stall": True}, 12, 0)]
         cap = 800
     for gen in (4, 5):
         for extra, depth, dev in plans:
             params = dict(gen=gen, **extra)
             res = explorer.explore(SPEC, params, depth, dev, time_cap=cap, seed=seed, do_finish=False,
                                    label=f"at{gen}/{extra}/d{depth}")
-            chk.add_explorer(f"at{gen}/{extra['max_send']}sends/{extra['max_adv']}adv", SPEC, params, res, {"depth": depth, "deviations": dev, **extra})
+            chk.add_explorer(f"at{gen}/{extra['max_send']}sends/{extra['max_adv']}adv" + ("/stall" if extra.get("stall") else ""), SPEC, params, res, {"depth": depth, "deviations": dev, **extra})
     chk.add_audit(SPEC, {"gen": 4, "max_send": 5, "max_adv": 2, "pattern": "BBBBB"}, 6, 0, limit=4000 if tier == "thorough" else 600)
     chk.cov["not_open_cases"] = not_open_cases(chk)
     return chk.finish()
